@@ -2,6 +2,7 @@
 Ops: contains own|mixin <y> <x> ; match_all / match_small / match_large <ip> [cands]"""
 import ipaddress
 from common import Case, W, rand_value, rand_block, errname, plist, tf
+import common
 import netaddr
 from netaddr import IPNetwork, IPAddress, IPRange, IPGlob
 from netaddr.ip import IPListMixin
@@ -84,8 +85,7 @@ def _mk(o):
     if k == 'R':
         return IPRange(IPAddress(o[2], o[1]), IPAddress(o[3], o[1]))
     if k == 'G':
-        g = IPGlob(o[4])
-        return g
+        return common.make_glob(o[4])
     raise ValueError(o)
 
 
